@@ -26,7 +26,9 @@ def scenario_to_json(sc):
     def enc_act(a):
         out = []
         for x in a:
-            if isinstance(x, tuple):
+            if isinstance(x, tuple) and x[0] in ('obj', 'kwargs', 'both'):
+                out.append([x[0], x[1]])
+            elif isinstance(x, tuple):
                 out.append([x[0], (bytes(x[1]).hex() if x[0] == 'b' else list(x[1]) if x[0] == 's' else (x[1] if len(x) > 1 else None))])
             else:
                 out.append(x)
@@ -52,7 +54,9 @@ def scenario_from_json(j):
     def dec_act(a):
         out = []
         for x in a:
-            if isinstance(x, list) and len(x) == 2 and x[0] in ('b', 's', 'o'):
+            if isinstance(x, list) and len(x) == 2 and x[0] in ('obj', 'kwargs', 'both'):
+                out.append((x[0], x[1]))
+            elif isinstance(x, list) and len(x) == 2 and x[0] in ('b', 's', 'o'):
                 if x[0] == 'b':
                     out.append(('b', bytes.fromhex(x[1])))
                 elif x[0] == 's':
